@@ -8,4 +8,9 @@ CONSTRAINT Bound
 VIEW View
 INVARIANT TypeOK
 INVARIANT VerdictTotal
+INVARIANT OkIsUnambiguous
+INVARIANT OkIsPhysical
+INVARIANT OkIsStacked
+INVARIANT MapAndListAgree
+INVARIANT PinsPartition
 CHECK_DEADLOCK FALSE
